@@ -316,9 +316,10 @@ Lemma po_test_batch v rest old cand :
   apply_ops (po_test v :: rest) old = Some cand ->
   exists x, jp_get old ["metadata"; "resourceVersion"] = Some x /\ jeqb x v = true /\ apply_ops rest old = Some cand.
 Proof.
-  simpl. unfold po_test, apply_op. rewrite po_rv_path_parse. simpl obind.
+  change (apply_ops (po_test v :: rest) old) with (obind (apply_op old (po_test v)) (apply_ops rest)).
+  unfold po_test, apply_op. rewrite po_rv_path_parse. cbn [obind].
   destruct (jp_get old ["metadata"; "resourceVersion"]) as [x|]; [|discriminate].
-  simpl. destruct (jeqb x v) eqn:E; [|discriminate]. simpl. intros H. exists x. repeat split; assumption.
+  cbn [obind]. destruct (jeqb x v) eqn:E; [|discriminate]. cbn [obind]. intros H. exists x. repeat split; assumption.
 Qed.
 
 Section WorldFacts.
@@ -385,7 +386,8 @@ Section WorldFacts.
     | ROk new =>
         exists cand, apply_ops rest seen = Some cand /\
                      new = po_stamp (rvs (Datatypes.S (w_ctr w))) (post seen (po_pick has_sub u seen cand)) /\
-                     w_hist w' = w_hist w ++ [mkWe (Some seen) (po_json_req u (po_test (rvs (w_ctr w)) :: rest)) (ROk new) (Some new)]
+                     w_hist w' = w_hist w ++ [mkWe (Some seen) (po_json_req u (po_test (rvs (w_ctr w)) :: rest)) (ROk new) (Some new)] /\
+                     po_stamped w' /\ w_obj w' = Some new
     | _ => exists before, w_hist w' = w_hist w ++ [mkWe before (po_json_req u (po_test (rvs (w_ctr w)) :: rest)) resp before] /\ w_obj w' = before
     end.
   Proof.
@@ -403,3 +405,228 @@ Section WorldFacts.
     - destruct H as (old & Ho & _ & Ho' & _ & Hh). exists (Some old). split; assumption.
   Qed.
 End WorldFacts.
+
+Lemma po_body_ops_nil hs : po_body_ops hs [] = [].
+Proof. destruct hs; reflexivity. Qed.
+
+Lemma po_as_json_inv diff fns b ops :
+  po_as_json_patch diff fns (Some b) = Ok ops -> ops <> [] ->
+  exists to_be, po_run_fns fns b = Ok to_be /\ ops = diff b to_be.
+Proof.
+  unfold po_as_json_patch. destruct b; try discriminate. destruct fns as [|f fns].
+  - intros H; injection H as <-. intros H; contradiction.
+  - destruct (po_run_fns (f :: fns) (JObj kvs)) as [tb| | |]; simpl; try discriminate.
+    intros H _. injection H as <-. exists tb. split; reflexivity.
+Qed.
+
+(* ---------- patch_obj against the stateful server: atomicity of the JSON batches ---------- *)
+Section Atomic.
+  Variable rvs : nat -> json.
+  Variable post : json -> json -> json.
+  Variable has_sub : bool.
+  Variable slip : nat.
+  Variable foreign : option json -> option json.
+  Variable diff : json -> json -> list jop.
+  Hypothesis rvs_inj : forall a b, jeqb (rvs a) (rvs b) = true -> a = b.
+
+  Notation wserve := (po_wserve rvs post has_sub slip foreign).
+  Notation stamped := (po_stamped rvs).
+
+  (* what the history of the server says about one JSON batch *)
+  Definition po_entry_ok (fns : list pfn) (e : po_wentry) : Prop :=
+    match rq_payload (we_req e) with
+    | PMerge _ => True
+    | PJson ops =>
+        exists rv rest, ops = po_test rv :: rest /\
+        match we_resp e with
+        | ROk new =>
+            (* accepted: the server held exactly the body [seen] whose version was tested; the batch was
+               applied to it and to nothing else *)
+            exists seen cand n,
+              we_before e = Some seen /\ po_rv_of (Some seen) = Ok rv /\
+              apply_ops rest seen = Some cand /\
+              new = po_stamp (rvs n) (post seen (po_pick has_sub (rq_url (we_req e)) seen cand)) /\
+              we_after e = Some new /\
+              (rq_url (we_req e) = UMain ->
+               exists to_be, po_run_fns fns seen = Ok to_be /\ rest = po_body_ops has_sub (diff seen to_be))
+        | _ => we_after e = we_before e       (* rejected: the server object is not changed by it *)
+        end
+    end.
+
+  Definition po_entries_ok fns (w : po_world) : Prop := forall e, In e (w_hist w) -> po_entry_ok fns e.
+
+  Lemma po_stamped_rv w seen : stamped w -> w_obj w = Some seen ->
+    po_rv_of (Some seen) = Ok (rvs (w_ctr w)) /\ po_truthy seen = true.
+  Proof.
+    intros Hst Ho. destruct (Hst _ Ho) as [b ->]. split; [apply po_stamp_rv_of | apply po_stamp_truthy].
+  Qed.
+
+  Lemma po_entries_snoc fns w w' e :
+    po_entries_ok fns w -> w_hist w' = w_hist w ++ [e] -> po_entry_ok fns e -> po_entries_ok fns w'.
+  Proof.
+    intros H Hh He x Hx. rewrite Hh in Hx. apply in_app_or in Hx. destruct Hx as [Hx|[<-|[]]]; [apply H; exact Hx | exact He].
+  Qed.
+
+  Lemma po_atomic_status fns sops a seen :
+    stamped (a_srv a) -> po_entries_ok fns (a_srv a) -> w_obj (a_srv a) = Some seen ->
+    po_entries_ok fns (r_srv (po_json_status po_world wserve fns sops a (Some seen))).
+  Proof.
+    intros Hst Hen Ho. unfold po_json_status. destruct sops as [|o l]; [exact Hen|].
+    destruct (po_stamped_rv _ _ Hst Ho) as [Hrv _]. rewrite Hrv.
+    unfold po_call. destruct (wserve (a_srv a) _) as [resp w'] eqn:E.
+    pose proof (po_wstep_json rvs post has_sub slip foreign rvs_inj _ _ _ _ _ _ Hst Ho E) as H.
+    destruct resp as [new| | |c]; cbn [r_srv po_finish a_srv].
+    - destruct H as (cand & Hc & Hn & Hh & _ & _). eapply po_entries_snoc; [exact Hen | exact Hh|].
+      unfold po_entry_ok; cbn. eexists _, _. split; [reflexivity|].
+      exists seen, cand, (Datatypes.S (w_ctr (a_srv a))). repeat split; try assumption. intros H'; discriminate.
+    - destruct H as (bf & Hh & _). eapply po_entries_snoc; [exact Hen | exact Hh|].
+      unfold po_entry_ok; cbn. eexists _, _. split; reflexivity.
+    - destruct H as (bf & Hh & _). eapply po_entries_snoc; [exact Hen | exact Hh|].
+      unfold po_entry_ok; cbn. eexists _, _. split; reflexivity.
+    - destruct H as (bf & Hh & _). eapply po_entries_snoc; [exact Hen | exact Hh|].
+      unfold po_entry_ok; cbn. eexists _, _. split; reflexivity.
+  Qed.
+
+  Lemma po_atomic_phase fns orig a seen :
+    stamped (a_srv a) -> po_entries_ok fns (a_srv a) -> w_obj (a_srv a) = Some seen ->
+    po_fresh (a_patched a) orig = Some seen ->
+    po_entries_ok fns (r_srv (po_json_phase po_world wserve diff has_sub fns orig a)).
+  Proof.
+    intros Hst Hen Ho Hf. unfold po_json_phase. rewrite Hf.
+    destruct (po_as_json_patch diff fns (Some seen)) as [ops| | |] eqn:Eops; try exact Hen.
+    destruct (po_body_ops has_sub ops) as [|o l] eqn:Eb; [apply po_atomic_status; assumption|].
+    destruct (po_stamped_rv _ _ Hst Ho) as [Hrv _]. rewrite Hrv.
+    unfold po_call. destruct (wserve (a_srv a) _) as [resp w'] eqn:E.
+    pose proof (po_wstep_json rvs post has_sub slip foreign rvs_inj _ _ _ _ _ _ Hst Ho E) as H.
+    assert (Hne : ops <> []). { intros ->. rewrite po_body_ops_nil in Eb. discriminate. }
+    destruct (po_as_json_inv _ _ _ _ Eops Hne) as (to_be & Hrun & Hops).
+    destruct resp as [new| | |c]; cbn [r_srv po_finish a_srv].
+    - destruct H as (cand & Hc & Hn & Hh & Hst' & Ho').
+      apply po_atomic_status; cbn [a_srv a_patched]; try assumption.
+      eapply po_entries_snoc; [exact Hen | exact Hh|].
+      unfold po_entry_ok; cbn. eexists _, _. split; [reflexivity|].
+      exists seen, cand, (Datatypes.S (w_ctr (a_srv a))). repeat split; try assumption.
+      intros _. exists to_be. split; [exact Hrun|]. rewrite <- Eb, Hops. reflexivity.
+    - destruct H as (bf & Hh & _). eapply po_entries_snoc; [exact Hen | exact Hh|].
+      unfold po_entry_ok; cbn. eexists _, _. split; reflexivity.
+    - destruct H as (bf & Hh & _). eapply po_entries_snoc; [exact Hen | exact Hh|].
+      unfold po_entry_ok; cbn. eexists _, _. split; reflexivity.
+    - destruct H as (bf & Hh & _). eapply po_entries_snoc; [exact Hen | exact Hh|].
+      unfold po_entry_ok; cbn. eexists _, _. split; reflexivity.
+  Qed.
+
+  (* a merge-patch request in front: whatever it does, the JSON phase starts from the server's own answer *)
+  Lemma po_atomic_merge_call fns orig a u j (k : po_acc po_world -> po_result po_world) :
+    stamped (a_srv a) -> po_entries_ok fns (a_srv a) ->
+    (forall a' seen, stamped (a_srv a') -> po_entries_ok fns (a_srv a') -> w_obj (a_srv a') = Some seen ->
+                     po_fresh (a_patched a') orig = Some seen -> po_entries_ok fns (r_srv (k a'))) ->
+    po_entries_ok fns (r_srv (po_call po_world wserve a (po_merge_req u j) false fns k)).
+  Proof.
+    intros Hst Hen Hk. unfold po_call. destruct (wserve (a_srv a) _) as [resp w'] eqn:E.
+    pose proof (po_wstep rvs post has_sub slip foreign _ _ _ _ E Hst) as (Hst' & _ & H). cbv zeta in H.
+    destruct resp as [new| | |c]; cbn [r_srv]; try contradiction.
+    - destruct H as (old & cand & _ & _ & Hn & Ho' & _ & Hh).
+      apply (Hk _ new); cbn [a_srv a_patched]; try assumption.
+      + eapply po_entries_snoc; [exact Hen | exact Hh | exact I].
+      + unfold po_fresh. rewrite Hn, po_stamp_truthy. reflexivity.
+    - destruct H as (_ & _ & Hh). eapply po_entries_snoc; [exact Hen | exact Hh | exact I].
+    - destruct H as (old & _ & _ & _ & _ & Hh). eapply po_entries_snoc; [exact Hen | exact Hh | exact I].
+  Qed.
+
+  Theorem po_atomic_thm patch fns b0 c0 :
+    let obj0 := po_stamp (rvs c0) b0 in
+    let r := patch_obj po_world wserve diff has_sub patch fns (Some obj0) (mkW (Some obj0) c0 0 []) in
+    forall e, In e (w_hist (r_srv r)) -> po_entry_ok fns e.
+  Proof.
+    intros obj0 r. subst r. unfold patch_obj. destruct (po_split has_sub patch) as [bp sp].
+    set (w0 := mkW (Some obj0) c0 0 []).
+    assert (Hst0 : stamped w0). { intros o Ho. simpl in Ho. injection Ho as <-. eexists; reflexivity. }
+    assert (Hen0 : po_entries_ok fns w0). { intros e []. }
+    assert (Hms : forall a seen, stamped (a_srv a) -> po_entries_ok fns (a_srv a) -> w_obj (a_srv a) = Some seen ->
+                                 po_fresh (a_patched a) (Some obj0) = Some seen ->
+                                 po_entries_ok fns (r_srv (po_merge_status po_world wserve diff has_sub sp fns (Some obj0) a))).
+    { intros a seen Hst Hen Ho Hf. unfold po_merge_status. destruct sp as [j|].
+      - apply (po_atomic_merge_call fns (Some obj0)); try assumption. intros a' seen' H1 H2 H3 H4. eapply po_atomic_phase; eassumption.
+      - eapply po_atomic_phase; eassumption. }
+    destruct bp as [|kv bp].
+    - apply (Hms _ obj0); try assumption; reflexivity.
+    - apply (po_atomic_merge_call fns (Some obj0)); assumption.
+  Qed.
+End Atomic.
+
+(* ---------- nothing of the merge-patch is lost by the split ---------- *)
+Lemma po_lookup_del_other {V} k k' (l : list (string * V)) : String.eqb k k' = false -> lookup k (del k' l) = lookup k l.
+Proof.
+  intros Hk. induction l as [|[k2 v] l IH]; simpl; [reflexivity|].
+  destruct (String.eqb k' k2) eqn:E2.
+  - apply String.eqb_eq in E2. subst k2. rewrite Hk. exact IH.
+  - simpl. destruct (String.eqb k k2); [reflexivity | exact IH].
+Qed.
+
+(* every key of the patch is in exactly one of the two merge payloads — unless it is `status: None` with a subresource *)
+Theorem po_split_cover has_sub patch bp sp k v :
+  po_split has_sub patch = (bp, sp) -> lookup k patch = Some v ->
+  (has_sub = true -> k = "status" -> v <> JNull) ->
+  (if has_sub && String.eqb k "status" then sp = Some (JObj [("status", v)]) /\ lookup k bp = None
+   else lookup k bp = Some v).
+Proof.
+  unfold po_split. destruct has_sub; intros H Hl Hg; injection H as <- <-; simpl.
+  - destruct (String.eqb k "status") eqn:Ek.
+    + apply String.eqb_eq in Ek. subst k. rewrite Hl. split; [|apply po_lookup_del_same].
+      specialize (Hg eq_refl eq_refl). destruct v; try reflexivity. contradiction.
+    + rewrite po_lookup_del_other; assumption.
+  - exact Hl.
+Qed.
+
+(* ... and that exception is real (finding F801): `status: None` is popped and sent nowhere *)
+Theorem po_split_cover_refuted :
+  exists patch bp sp, po_split true patch = (bp, sp) /\ lookup "status" patch = Some JNull /\
+                      sp = None /\ lookup "status" bp = None /\
+                      (forall S serve diff orig (s0 : S), r_log (patch_obj S serve diff true patch [] orig s0) = []).
+Proof.
+  exists [("status", JNull)], [], None. repeat split.
+Qed.
+
+(* ---------- which requests are sent when nothing goes wrong ---------- *)
+Definition po_merge_plan (has_sub : bool) (patch : obj) : list po_req :=
+  let (bp, sp) := po_split has_sub patch in
+  (match bp with [] => [] | _ => [po_merge_req UMain (JObj bp)] end) ++
+  (match sp with Some j => [po_merge_req UStatus j] | None => [] end).
+
+Section Plan.
+  Variable S : Type.
+  Variable serve : S -> po_req -> po_resp * S.
+  Variable diff : json -> json -> list jop.
+
+  (* if every request was accepted, every planned merge-patch request was sent (and nothing else as a merge-patch) *)
+  Theorem po_merges_sent has_sub patch fns orig s0 :
+    let r := patch_obj S serve diff has_sub patch fns orig s0 in
+    po_all_ok (r_log r) = true ->
+    filter (fun q => negb (po_is_json q)) (map fst (r_log r)) = po_merge_plan has_sub patch.
+  Proof.
+    cbv zeta. unfold po_merge_plan, patch_obj. destruct (po_split has_sub patch) as [bp sp].
+    po_explode; intros Hok; try discriminate Hok; reflexivity.
+  Qed.
+End Plan.
+
+(* ---------- F6: merge-patches carry no precondition ---------- *)
+Definition po_ex_rvs (n : nat) : json := JNum (Z.of_nat n).
+Lemma po_ex_rvs_inj a b : jeqb (po_ex_rvs a) (po_ex_rvs b) = true -> a = b.
+Proof. simpl. intros H. apply Z.eqb_eq in H. lia. Qed.
+
+Definition po_ex_obj (uid : string) : json :=
+  JObj [("metadata", JObj [("uid", JStr uid)]); ("spec", JObj [("a", JNum 1)])].
+Definition po_ex_recreate (o : option json) : option json := Some (po_ex_obj "uid-2").
+Definition po_ex_diff (a b : json) : list jop := [OReplace "" b].
+Definition po_ex_patch : obj := [("status", JObj [("handled-for", JStr "uid-1")])].
+
+Theorem po_wrong_object :
+  let obj0 := po_stamp (po_ex_rvs 0) (po_ex_obj "uid-1") in
+  let r := patch_obj po_world (po_wserve po_ex_rvs (fun _ c => c) false 0 po_ex_recreate) po_ex_diff false
+                     po_ex_patch [] (Some obj0) (mkW (Some obj0) 0 0 []) in
+  exists q new, r_log r = [(q, ROk new)] /\ po_is_json q = false /\
+                po_uid_field obj0 = Some (JStr "uid-1") /\ po_uid_field new = Some (JStr "uid-2") /\
+                w_obj (r_srv r) = Some new /\
+                po_status_of new = Some (JObj [("handled-for", JStr "uid-1")]) /\
+                r_out r = Returned (Some new) None.
+Proof. cbv zeta. eexists _, _. vm_compute. repeat split. Qed.
